@@ -540,6 +540,15 @@ class Gen:
         x = r.random()
         self.count("hostile")
         good = lambda: self.template(cid).marshal()
+        # a connection that has not said Hello is closed by the bus at its first message that is not Hello - but libdbus still dispatches what
+        # it had already read from it (a Hello further on in the same write is carried out on the dying connection: a unique name is used up,
+        # NameOwnerChanged goes out twice). That is not in the model (which drops the connection at once), so such a connection writes one
+        # message at a time.
+        fresh = not (self.open.get(cid) or {}).get("active")
+        if fresh and 0.4 <= x < 0.55:
+            x = 0.1
+        if fresh and 0.8 <= x < 0.9:
+            self.count("hostile:valid alone"); self.ops.append(("raw", cid, good(), True)); return
         if x < 0.4:
             data = self.mutate(self.template(cid)); kind = "mutated"
         elif x < 0.55:
